@@ -249,6 +249,18 @@ def build_registry(darsia, rng):
     add("clip_image", [A], lambda: darsia.ClipModel(**{"min value": 0.2, "max value": 0.7})(A))
     add("scaling_array", [arr2], lambda: darsia.ScalingModel(scaling=2.0)(arr2))
     add("linear_array", [arr2], lambda: darsia.LinearModel(scaling=2.0, offset=0.5)(arr2))
+    # unit slope with an offset (also reached by re-parametrising a used model), on raw arrays of float and integer type
+    add("linear_array_unit_scaling", [arr2], lambda: darsia.LinearModel(scaling=1.0, offset=0.3)(arr2))
+    arr_i = (arr2 * 100).astype(np.int64)
+    add("linear_int_array_unit_scaling", [arr_i], lambda: darsia.LinearModel(scaling=1, offset=3)(arr_i))
+
+    def _lin_updated():
+        m_ = darsia.LinearModel(scaling=2.0, offset=0.1)
+        first_ = m_(arr2)
+        m_.update_model_parameters(np.array([1.0, -0.1]), None)
+        return first_, m_(arr2), m_(arr2)
+
+    add("linear_array_after_update_to_unit_scaling", [arr2], _lin_updated)
     add("combined_array", [arr2], lambda: darsia.CombinedModel([darsia.LinearModel(scaling=2.0, offset=0.1), darsia.ClipModel(**{"min value": 0.3, "max value": 1.5})])(arr2))
     add("threshold_array", [arr2], lambda: darsia.StaticThresholdModel(0.3, 0.8)(arr2))
     msk = arr2 > 0.2
@@ -275,6 +287,12 @@ def build_registry(darsia, rng):
     add("integrate_weighted_coarse", [A], lambda: wgeo.integrate(darsia.uniform_refinement(A, 1)))
     add("normalize", [pos1, pos2], lambda: darsia.Geometry(**pos1.shape_metadata()).normalize(pos1, pos2))
     add("emd", [mass1, mass2], lambda: darsia.EMD()(mass1, mass2))
+    # all mutual distances of a list of images, with a preprocessing step (coarsening) configured
+    me_ = np.random.default_rng(3).random((3, 4, 6)) + 0.1
+    me_ /= me_.sum(axis=(1, 2), keepdims=True)
+    elist = [darsia.Image(me_[i_].copy(), space_dim=2, dimensions=[1.0, 1.5], scalar=True) for i_ in range(3)]
+    emd_pre = darsia.EMD(darsia.Resize(fx=0.5, fy=0.5, interpolation="inter_area", **{"resize conservative": True}))
+    add("emd_distance_matrix_with_preprocessing", [elist, elist[0], elist[1], elist[2]], lambda: (emd_pre.distance_matrix(elist), emd_pre.distance_matrix(elist)))
     add("wasserstein_newton", [mass1, mass2], lambda: darsia.wasserstein_distance(mass1, mass2, "newton", options={"num_iter": 3}))
     wim = darsia.Image(np.full((4, 5), 2.0), space_dim=2, dimensions=list(mass1.dimensions), scalar=True)
     opts = {"num_iter": 3, "return_info": True}
